@@ -12,6 +12,7 @@ pub mod c13;
 pub mod c17;
 pub mod problems;
 pub mod c18;
+pub mod c20;
 pub mod roundtrip;
 
 use crate::runner::{Campaign, PropertyRun};
@@ -112,8 +113,13 @@ pub fn property(id: &str) -> Option<PropertyRun> {
             parts: vec![Box::new(Campaign(c18::Fixpoint)), Box::new(Campaign(c18::Determinism))],
             assumptions: vec!["termination is decided by pass count and cycle detection, not by a clock".into(), "determinism: three fresh processes per case (different hash seeds/ASLR)".into()],
         },
+        "C20" => PropertyRun {
+            id: id.into(),
+            parts: vec![Box::new(Campaign(c20::C20))],
+            assumptions: vec!["directory order model: depth-first, entries of a directory in byte-wise file-name order, hidden files included (observed on the unchanged tree and what walkdir's sort_by_file_name documents)".into()],
+        },
         _ => return None,
     })
 }
 
-pub const ALL: &[&str] = &["C01", "C02", "C03", "C04", "C05", "C06", "C07", "C08", "C09", "C10", "C11", "C12", "C13", "C14", "C15", "C17", "C18", "C19"];
+pub const ALL: &[&str] = &["C01", "C02", "C03", "C04", "C05", "C06", "C07", "C08", "C09", "C10", "C11", "C12", "C13", "C14", "C15", "C17", "C18", "C19", "C20"];
